@@ -13,6 +13,7 @@ _MODULES = [
     "c16_views",
     "c18_locals",
     "c19_devserver",
+    "c20_gates",
 ]
 
 REGISTRY: dict = {}
